@@ -148,7 +148,13 @@ class InMemorySemantivaTransport(SemantivaTransport):
         Returns:
             Future if require_ack=True, else None.
         """
-        q, lock = self._queues[channel]
+        # Create the channel queue atomically: with the defaultdict factory two
+        # threads publishing first to the same new channel could each install their
+        # own (deque, lock) pair and the loser's message was dropped.
+        entry = self._queues.get(channel)
+        if entry is None:
+            entry = self._queues.setdefault(channel, (deque(), threading.Lock()))
+        q, lock = entry
         msg = Message(
             data=data,
             context=context,
